@@ -3,6 +3,7 @@ import ast
 from ..fn import World
 from ..index import AnalysisError, dotted
 from ..astutil import text, short, endswith, calls_in, walk_no_nested
+from ._h_F import Res, res_of, atoms
 
 EXPLANATION = (
   "Decides (R1) totality by shape: no column type overrides convert(); convert() returns error "
@@ -29,6 +30,13 @@ def _types(w):
   return [base] + w.repo.subclasses(base, strict=True)
 
 
+def _catch_all(h):
+  if h.type is None:
+    return True
+  names = h.type.elts if isinstance(h.type, ast.Tuple) else [h.type]
+  return any(text(x) in ("Exception", "BaseException") for x in names)
+
+
 def r1_totality(run, w):
   R1 = run.rule("C22-R1", "convert() is defined once, returns errors unchanged and fences "
                 "do_convert() with a handler that cannot raise", floor=4)
@@ -39,23 +47,22 @@ def r1_totality(run, w):
   fn = w.fn("usertypes.BaseColumnType.convert")
   p = fn.fi.params()[1]
   cfg = fn.xcfg
-  # error objects are returned as they are, before anything else
-  first = fn.node.body[0]
-  while isinstance(first, ast.Expr) and isinstance(first.value, ast.Constant):
-    first = fn.node.body[fn.node.body.index(first) + 1]
-  ok = isinstance(first, ast.If) and isinstance(first.test, ast.Call) and \
-      dotted(first.test.func) == "isinstance" and text(first.test.args[0]) == p and \
-      endswith(dotted(first.test.args[1]), "RaisedException") and \
-      len(first.body) == 1 and isinstance(first.body[0], ast.Return) and \
-      text(first.body[0].value) == p
+  r = res_of(w, fn)          # normal CFG: guards and values
+  # error objects are returned as they are, and nothing is attempted on them
+  def is_error(a, node):
+    return isinstance(a, ast.Call) and dotted(a.func) == "isinstance" and len(a.args) == 2 and \
+        r.norm(a.args[0], node.id) == p and endswith(dotted(a.args[1]), "RaisedException")
+  passthrough = [n for (n, v) in r.returns() if text(v) == p and r.known(n.id, is_error, True)]
+  conv = [(n, c) for (n, c, nm) in fn.calls(r.cfg) if nm == "self.do_convert"]
+  ok = bool(passthrough) and bool(conv) and all(r.known(n.id, is_error, False) for (n, c) in conv)
   run.ob(R1, fn.qualname, "if isinstance(value, RaisedException): return value",
          "error objects pass through conversion unchanged", ok, fi=fn.fi)
   # do_convert is called inside try/except Exception
   calls = [(n, c) for (n, c, nm) in fn.calls(cfg) if nm == "self.do_convert"]
   trys = [t for t in ast.walk(fn.node) if isinstance(t, ast.Try) and
           any(c is x for (n, c) in calls for b in t.body for x in ast.walk(b))]
-  ok = len(calls) == 1 and len(trys) >= 1 and any(
-    h.type is None or text(h.type) in ("Exception", "BaseException") for h in trys[0].handlers)
+  ok = len({id(c) for (n, c) in calls}) == 1 and len(trys) >= 1 and \
+      any(_catch_all(h) for t in trys for h in t.handlers)
   run.ob(R1, fn.qualname, "try: return self.do_convert(value) except Exception", "a failing "
          "conversion is caught whatever it raises", ok, fi=fn.fi)
   # nothing escapes: no path from entry reaches the exceptional exit
@@ -64,24 +71,18 @@ def r1_totality(run, w):
   wit = None
   if esc:
     wit = cfg.describe_path(cfg.path(cfg.entry.id, {cfg.raise_exit.id}))
-  # calls allowed to be unfenced on the last fallback path: safe_repr (itself fenced) and the
-  # isinstance test
-  if esc:
-    # tolerate the final fallback `return objtypes.safe_repr(x)` if safe_repr cannot raise
+    # tolerate calls of safe_repr (itself fenced) and the isinstance test outside a fence
     sr = w.fn("objtypes.safe_repr")
-    sr_ok = any(isinstance(t, ast.Try) and any(h.type is None or
-                                               text(h.type) in ("Exception", "BaseException")
-                                               for h in t.handlers) for t in sr.node.body)
-    pth = cfg.path(cfg.entry.id, {cfg.raise_exit.id})
-    last = cfg.nodes[pth[-2]] if pth and len(pth) >= 2 else None
-    # recompute reachability ignoring raise edges out of nodes that only call safe_repr/isinstance
+    sr_ok = any(isinstance(t, ast.Try) and any(_catch_all(h) for h in t.handlers)
+                for t in sr.node.body)
     benign = set()
     for n in cfg.nodes:
-      cs = [dotted(c.func) for c in calls_in(n.exprs)]
+      cs = [fn.name(c) for c in calls_in(n.exprs)]
       if n.stmt is not None and cs and all(d in ("objtypes.safe_repr", "safe_repr", "isinstance")
-                                           for d in cs) and sr_ok:
+                                           for d in cs) and sr_ok and \
+          not any(isinstance(x, (ast.Subscript, ast.BinOp)) for e in n.exprs
+                  for x in walk_no_nested(e)):
         benign.add(n.id)
-    # remove exceptional edges of benign nodes
     saved = {b: set(cfg.succ[b]) for b in benign}
     for b in benign:
       cfg.succ[b] = cfg.normal_succ(b)
@@ -96,35 +97,60 @@ def r1_totality(run, w):
 
 
 # ------------------------------------------------------------------------------------------ tags
+BUILTIN_TAGS = ("float", "int", "str", "bytes", "bool", "tuple", "list", "dict")
+
+
+def _type_tags(mod, e, strict=True):
+  """Tags named by the class-info argument of isinstance / the right side of `type(x) in|is ...`:
+  builtin types, NoneType, RecordList, module-level tuples of those. None when a name is not one
+  of these (strict: raise instead)."""
+  if isinstance(e, (ast.Tuple, ast.List)):
+    out = set()
+    for x in e.elts:
+      t = _type_tags(mod, x, strict)
+      if t is None:
+        return None
+      out |= t
+    return out
+  d = dotted(e)
+  if d is not None and d in mod.assigns and isinstance(mod.assigns[d], ast.Tuple):
+    return _type_tags(mod, mod.assigns[d], strict)
+  if d == "NoneType" or (isinstance(e, ast.Call) and text(e) == "type(None)"):
+    return {"none"}
+  if d in BUILTIN_TAGS:
+    return {d}
+  if d and d.split(".")[-1] == "RecordList":
+    return {"RecordList"}
+  if strict:
+    raise AnalysisError("unknown type name %s in a type test" % (d or short(e)))
+  return None
+
+
 def _accept_set(w, ci):
   """Outer type tags accepted by ci.is_right_type, read from its source; None = everything."""
   m = w.repo.find_method(ci, "is_right_type")
   if m is None:
     raise AnalysisError("no is_right_type for %s" % ci.qualname)
-  rets = [n for n in ast.walk(m.node) if isinstance(n, ast.Return)]
-  if len(rets) != 1:
-    raise AnalysisError("%s: is_right_type has %d returns" % (ci.qualname, len(rets)))
+  r = res_of(w, w.fn_of(m))
+  e0 = r.result_expr()
+  if e0 is None:
+    raise AnalysisError("%s: is_right_type is not a plain boolean expression" % ci.qualname)
   p = m.params()[1]
   mod = m.module
   def names(e):
-    if isinstance(e, (ast.Tuple, ast.List)):
-      out = set()
-      for x in e.elts:
-        out |= names(x)
-      return out
-    d = dotted(e)
-    if d in mod.assigns and isinstance(mod.assigns[d], ast.Tuple):
-      return names(mod.assigns[d])
-    if d == "NoneType":
-      return {"none"}
-    if d in ("float", "int", "str", "bytes", "bool", "tuple", "list", "dict"):
-      return {d}
-    if d and d.endswith("RecordList"):
-      return {"RecordList"}
-    raise AnalysisError("%s: unknown type name %s in is_right_type" % (ci.qualname, d))
-  def acc(e, exact_only=False):
+    try:
+      return _type_tags(mod, e)
+    except AnalysisError as ex:
+      raise AnalysisError("%s: %s (is_right_type)" % (ci.qualname, ex))
+  def acc(e):
     if isinstance(e, ast.Constant) and e.value is True:
       return None
+    if isinstance(e, ast.IfExp):
+      # `A if c else B` as a boolean:  True if c else B == c or B ;  B if c else False == c and B
+      if isinstance(e.body, ast.Constant) and e.body.value is True:
+        return acc(ast.BoolOp(op=ast.Or(), values=[e.test, e.orelse]))
+      if isinstance(e.orelse, ast.Constant) and e.orelse.value is False:
+        return acc(ast.BoolOp(op=ast.And(), values=[e.test, e.body]))
     if isinstance(e, ast.BoolOp) and isinstance(e.op, ast.Or):
       out = set()
       for v in e.values:
@@ -151,115 +177,100 @@ def _accept_set(w, ci):
         s = s | {"RecordList"}
       return s
     if isinstance(e, ast.Compare) and len(e.ops) == 1:
-      l, op, r = e.left, e.ops[0], e.comparators[0]
-      if isinstance(op, ast.Is) and text(l) == p and isinstance(r, ast.Constant) and r.value is None:
+      l, op, rr = e.left, e.ops[0], e.comparators[0]
+      if isinstance(op, ast.Is) and text(l) == p and isinstance(rr, ast.Constant) and \
+          rr.value is None:
         return {"none"}
-      if isinstance(op, ast.Is) and isinstance(l, ast.Call) and dotted(l.func) == "type" and \
-          text(l.args[0]) == p:
-        return names(r)
-      if isinstance(op, ast.In) and isinstance(l, ast.Call) and dotted(l.func) == "type" and \
-          text(l.args[0]) == p:
-        return names(r)
+      if isinstance(op, (ast.Is, ast.In, ast.Eq)) and isinstance(l, ast.Call) and \
+          dotted(l.func) == "type" and text(l.args[0]) == p:
+        return names(rr)
     raise AnalysisError("%s: is_right_type shape not understood: %s" % (ci.qualname, short(e)))
-  return acc(rets[0].value)
+  return acc(e0)
 
 
 class Tagger(object):
+  """Outer type tags of an expression evaluated at a CFG node. Locals are followed through the
+  definitions that reach the node; a name's tags are narrowed by every isinstance / `is None` /
+  is_int_short test known to hold there, however the test is spelled (sa/rules/_h_F.Res.known)."""
   def __init__(self, w):
     self.w = w
     self._fn_cache = {}
+    self._cg = None
+
+  def res(self, fi):
+    return res_of(self.w, self.w.fn_of(fi))
 
   def fn_tags(self, fi, depth=0):
     if fi.qualname in self._fn_cache:
       return self._fn_cache[fi.qualname]
     self._fn_cache[fi.qualname] = {"any"}
+    r = self.res(fi)
     out = set()
-    for s in fi.node.body:
-      for n in walk_no_nested(s):
-        if isinstance(n, ast.Return):
-          out |= self.tags(n.value, fi, n, depth + 1) if n.value is not None else {"none"}
+    for n in r.cfg.nodes:
+      if n.kind == "return":
+        out |= self.tags(n.stmt.value, fi, n.id, (), depth + 1) if n.stmt.value is not None \
+            else {"none"}
     self._fn_cache[fi.qualname] = out
     return out
 
-  def guards(self, fi, node, name):
-    """Tags established for `name` by the isinstance / None tests on the if/elif chain that
-    encloses `node` (positive branches only)."""
-    tags = None
-    def visit(stmts, cur):
-      nonlocal tags
-      for s in stmts:
-        if s is node or any(x is node for x in ast.walk(s)):
-          if isinstance(s, ast.If):
-            in_body = any(x is node for b in s.body for x in ast.walk(b))
-            t = self.test_tags(s.test, name) if in_body else None
-            visit(s.body if in_body else s.orelse, t if t is not None else cur)
-          elif isinstance(s, (ast.For, ast.While, ast.With, ast.Try)):
-            for b in (getattr(s, "body", []), getattr(s, "orelse", []),
-                      getattr(s, "finalbody", [])):
-              visit(b, cur)
-            for h in getattr(s, "handlers", []):
-              visit(h.body, cur)
-          else:
-            tags = cur
-          return
-    visit(fi.node.body, None)
-    return tags
-
-  def range_checked(self, fi, site, name):
-    """Is `site` dominated by `if not is_int_short(name): raise ...` with no rebinding of name in
-    between, and is name's only definition an exact int (int(...))?"""
-    fn = self.w.fn_of(fi)
-    cfg = fn.cfg
-    sites = [n for n in cfg.nodes if n.stmt is site]
-    if not sites:
-      return False
-    guards = set()
-    for n in cfg.nodes:
-      if n.kind == "if" and isinstance(n.stmt.test, ast.UnaryOp) and \
-          isinstance(n.stmt.test.op, ast.Not) and isinstance(n.stmt.test.operand, ast.Call) and \
-          dotted(n.stmt.test.operand.func) == "is_int_short" and \
-          text(n.stmt.test.operand.args[0]) == name and \
-          n.stmt.body and all(isinstance(s, ast.Raise) for s in n.stmt.body):
-        guards.add(n.id)
-    if not guards or not cfg.dominated_by(sites[0].id, guards):
-      return False
-    defs = [n for n in cfg.nodes if n.kind == "stmt" and isinstance(n.stmt, ast.Assign) and
-            any(isinstance(t, ast.Name) and t.id == name for t in n.stmt.targets)]
-    if name in fi.params() or len(defs) != 1:
-      return False
-    d = defs[0]
-    exact_int = isinstance(d.stmt.value, ast.Call) and dotted(d.stmt.value.func) == "int"
-    return exact_int and all(cfg.dominated_by(g, {d.id}) for g in guards)
-
-  def test_tags(self, test, name):
-    if isinstance(test, ast.Call) and dotted(test.func) == "isinstance" and \
-        text(test.args[0]) == name:
-      t = test.args[1]
-      elts = t.elts if isinstance(t, ast.Tuple) else [t]
-      out = set()
-      for e in elts:
-        d = (dotted(e) or "").split(".")[-1]
-        if d in ("str", "bytes", "float", "int", "bool", "list", "tuple", "dict"):
-          out.add(d)
-        elif d == "NoneType":
-          out.add("none")
-        elif d in ("_numeric_types",):
-          out |= {"float", "int"}
-        else:
-          return None
-      return out
-    if isinstance(test, ast.Compare) and text(test.left) == name and \
-        isinstance(test.ops[0], ast.Is) and isinstance(test.comparators[0], ast.Constant) and \
-        test.comparators[0].value is None:
-      return {"none"}
-    if isinstance(test, ast.BoolOp) and isinstance(test.op, ast.And):
-      for v in test.values:
-        t = self.test_tags(v, name)
-        if t is not None:
-          return t
+  def test_tags(self, fi, atom, name):
+    """Tags a (canonical, positive) test establishes for local `name`; None if it says nothing."""
+    if isinstance(atom, ast.Call) and dotted(atom.func) == "isinstance" and len(atom.args) == 2 \
+        and text(atom.args[0]) == name:
+      return _type_tags(fi.module, atom.args[1], strict=False)
+    if isinstance(atom, ast.Compare) and len(atom.ops) == 1 and text(atom.left) == name:
+      op, rr = atom.ops[0], atom.comparators[0]
+      if isinstance(op, (ast.Is, ast.Eq)) and isinstance(rr, ast.Constant) and rr.value is None \
+          and isinstance(op, ast.Is):
+        return {"none"}
+    if isinstance(atom, ast.Compare) and len(atom.ops) == 1 and \
+        isinstance(atom.left, ast.Call) and dotted(atom.left.func) == "type" and \
+        len(atom.left.args) == 1 and text(atom.left.args[0]) == name and \
+        isinstance(atom.ops[0], (ast.Is, ast.In, ast.Eq)):
+      return _type_tags(fi.module, atom.comparators[0], strict=False)
     return None
 
-  def tags(self, e, fi, site, depth=0):
+  def guard_tags(self, fi, r, name, nid, facts):
+    """Intersection of the tag sets of all type tests on `name` known to hold at node nid."""
+    cands = {}
+    for n in r.cfg.nodes:
+      if n.kind in ("if", "assert", "while"):
+        for pol in (True, False):
+          for (a, p) in atoms(n.stmt.test, pol):
+            cands.setdefault(text(a), a)
+    for (a, p) in facts:
+      cands.setdefault(text(a), a)
+    out = None
+    for t, a in cands.items():
+      tg = self.test_tags(fi, a, name)
+      if tg is None:
+        continue
+      if r.known(nid, lambda x, nd, t=t: text(x) == t, True, facts):
+        out = tg if out is None else (out & tg)
+    return out
+
+  def name_tags(self, name, fi, nid, facts, depth):
+    r = self.res(fi)
+    # what the definitions reaching this point produce
+    if name in r.params and not r.defs.get(name):
+      base = {"any"}
+    else:
+      defs, entry = r.reaching(nid, name)
+      base = {"any"} if (entry or not defs) else set()
+      for d in defs:
+        v = r._plain_value(r.cfg.nodes[d], name)
+        base |= self.tags(v, fi, d, (), depth + 1) if v is not None and depth < 8 else {"any"}
+    def short_test(a, nd):
+      return isinstance(a, ast.Call) and dotted(a.func) == "is_int_short" and \
+          len(a.args) == 1 and text(a.args[0]) == name
+    if base <= {"int", "shortint"} and r.known(nid, short_test, True, facts):
+      return {"shortint"}
+    g = self.guard_tags(fi, r, name, nid, facts)
+    if g is not None:
+      return g
+    return base
+
+  def tags(self, e, fi, nid, facts=(), depth=0):
     if e is None:
       return {"none"}
     if isinstance(e, ast.Constant):
@@ -268,7 +279,8 @@ class Tagger(object):
         return {"shortint"}
       return {"none" if v is None else type(v).__name__}
     if isinstance(e, ast.IfExp):
-      return self.tags(e.body, fi, site, depth) | self.tags(e.orelse, fi, site, depth)
+      return self.tags(e.body, fi, nid, tuple(facts) + tuple(atoms(e.test, True)), depth) | \
+          self.tags(e.orelse, fi, nid, tuple(facts) + tuple(atoms(e.test, False)), depth)
     if isinstance(e, ast.JoinedStr):
       return {"str"}
     if isinstance(e, (ast.List, ast.ListComp)):
@@ -281,8 +293,9 @@ class Tagger(object):
       if isinstance(e.op, ast.Mod) and isinstance(e.left, ast.Constant) and \
           isinstance(e.left.value, str):
         return {"str"}
-      l, r = self.tags(e.left, fi, site, depth), self.tags(e.right, fi, site, depth)
-      if l <= ALLNUM | {"bool"} and r <= ALLNUM | {"bool"}:
+      l, r = self.tags(e.left, fi, nid, facts, depth), self.tags(e.right, fi, nid, facts, depth)
+      num = ALLNUM | {"bool", "shortint"}
+      if l <= num and r <= num:
         return {"float"} if ("float" in l and len(l) == 1) or ("float" in r and len(r) == 1) \
             else ALLNUM
       if l == {"str"} and r == {"str"}:
@@ -314,7 +327,7 @@ class Tagger(object):
       if depth < 4:
         fn = self.w.fn_of(fi)
         from ..callgraph import CallGraph
-        cg = getattr(self, "_cg", None) or CallGraph(self.w)
+        cg = self._cg or CallGraph(self.w)
         self._cg = cg
         tg = cg.resolve(fn, e)
         # classmethod-style call  Reference.do_convert(val)
@@ -330,20 +343,7 @@ class Tagger(object):
           return out
       return {"any"}
     if isinstance(e, ast.Name):
-      if self.range_checked(fi, site, e.id):
-        return {"shortint"}
-      g = self.guards(fi, site, e.id)
-      if g is not None:
-        return g
-      defs = [n.value for s in fi.node.body for n in walk_no_nested(s)
-              if isinstance(n, ast.Assign) and any(isinstance(t, ast.Name) and t.id == e.id
-                                                   for t in n.targets)]
-      if defs and e.id not in fi.params():
-        out = set()
-        for v in defs:
-          out |= self.tags(v, fi, site, depth)
-        return out
-      return {"any"}
+      return self.name_tags(e.id, fi, nid, facts, depth)
     return {"any"}
 
 
@@ -357,9 +357,10 @@ def r2_tags(run, w):
                       ci.methods.get("is_right_type") is None):
       continue    # inherits both: checked on the defining class
     accept = _accept_set(w, ci)
-    rets = [n for s in dc.node.body for n in walk_no_nested(s) if isinstance(n, ast.Return)]
-    for r in rets:
-      tags = tg.tags(r.value, dc, r)
+    r = res_of(w, w.fn_of(dc))
+    for n in [x for x in r.cfg.nodes if x.kind == "return"]:
+      v = n.stmt.value
+      tags = tg.tags(v, dc, n.id)
       if accept is None:
         ok, why = True, None
       else:
@@ -373,9 +374,12 @@ def r2_tags(run, w):
         why = None if ok else "may return %s; is_right_type accepts %s" % (
           ",".join(sorted(extra)), ",".join(sorted(accept)))
       run.ob(R2, "%s (do_convert of %s)" % (ci.qualname, dc.qualname),
-             "return " + short(r.value, 70),
+             "return " + short(r.expand(v, n.id) if v is not None else v, 70),
              "result is of the column type or alt-text (tags: %s)" % ",".join(sorted(tags)), ok,
-             witness=why, fi=dc, node=r)
+             witness=why, fi=dc, node=n.stmt)
+    if r.falls_off_end() and accept is not None and "none" not in accept:
+      run.ob(R2, "%s (do_convert of %s)" % (ci.qualname, dc.qualname), "implicit return None",
+             "result is of the column type or alt-text (tags: none)", False, fi=dc)
 
 
 UT = "sandbox/grist/usertypes.py"
